@@ -35,6 +35,8 @@ func (it *Iterator) Finish(err error) {
 	it.err = err
 	it.errLock.Unlock()
 
+	verifPoint("iterator.finish.mid", it)
+
 	close(it.Next)
 	if it.doneClosed.SetToIf(false, true) {
 		close(it.Done)
